@@ -352,6 +352,14 @@ def required_family(ctx, only=None):
         except Exception as ex:  # noqa
             r = ("esc", fmt_exc(ex))
         ctx.cls(f"required-family:{mut}:{channel}:defaults={defaults}:{r[0]}")
+        ctx.evaluations += 1
+        where = f"{'.'.join(key)}/{channel}/defaults={defaults}"
+        if r[0] == "ok":
+            ctx.finding(f"C06/required-family/{mut}/accepted/{where}", {"input": short(obj, 300)})
+        elif r[0] == "esc":
+            ctx.cls("escape (C03)")
+        elif key[-1] not in r[1] and not (mut == "remove-section" and key[-2] in r[1]):
+            ctx.finding(f"C06/required-family/{mut}/error-does-not-name-the-key/{where}", {"message": short(r[1], 300)})
 
     if only is not None:
         return one(only)
